@@ -129,6 +129,23 @@ Proof.
   destruct (c <? 128) eqn:E; [discriminate|]. lia.
 Qed.
 
+Lemma utf8_encode_cons : forall se cp r,
+  utf8_encode se (cp :: r) = match enc_cp se cp, utf8_encode se r with
+                             | Some a, Some b => Some (a ++ b)
+                             | _, _ => None
+                             end.
+Proof. reflexivity. Qed.
+
+Lemma enc_surrogate : forall c, 128 <= c -> c < 256 -> enc_cp true (56320 + c) = Some [c].
+Proof.
+  intros c H1 H2. remember (56320 + c) as cp eqn:Hcp. unfold enc_cp.
+  destruct (cp <? 128) eqn:E1; [lia|].
+  destruct (cp <? 2048) eqn:E2; [lia|].
+  destruct ((55296 <=? cp) && (cp <? 57344)) eqn:E3; [|lia].
+  destruct (true && (56448 <=? cp) && (cp <? 56576)) eqn:E4; [|lia].
+  f_equal. f_equal. lia.
+Qed.
+
 (* decode then encode: all bytes, both error modes *)
 Lemma decode_encode_aux : forall se s k t,
   wf_bytes s = true ->
@@ -141,16 +158,16 @@ Proof.
     cbn [utf8_decode_aux] in H. destruct k as [|k].
     + destruct (utf8_head (c :: r)) as [[cp k']|] eqn:Hh.
       * destruct (utf8_decode_aux se k' r) as [t'|] eqn:Hd; [|discriminate].
-        cbn [option_map] in H. inversion H; subst; clear H.
+        cbn [option_map] in H. injection H as <-.
         cbn [utf8_encode]. rewrite (head_enc se _ _ _ _ Hh), (IH _ _ Hr Hd).
         cbn [skipn app]. f_equal. f_equal. apply firstn_skipn.
       * destruct (se && (128 <=? c)) eqn:Hse; [|discriminate].
         apply andb_prop in Hse. destruct Hse as [Hs Hge]. subst se.
         destruct (utf8_decode_aux true 0 r) as [t'|] eqn:Hd; [|discriminate].
-        cbn [option_map] in H. inversion H; subst; clear H.
-        cbn [utf8_encode]. rewrite (IH _ _ Hr Hd).
-        unfold enc_cp. repeat break_if; try lia.
-        cbn [skipn app]. f_equal. f_equal. lia.
+        remember (56320 + c) as cp eqn:Hcp.
+        cbn [option_map] in H. injection H as <-.
+        rewrite utf8_encode_cons, (IH _ _ Hr Hd). subst cp.
+        rewrite (enc_surrogate c) by lia. reflexivity.
     + cbn [skipn]. apply IH; assumption.
 Qed.
 
@@ -186,10 +203,28 @@ Lemma enc_head : forall cp e rest,
   exists c r, e = c :: r /\ utf8_head (e ++ rest) = Some (cp, List.length r).
 Proof.
   intros cp e rest H. unfold enc_cp in H.
-  repeat break_if; try discriminate; inversion H; subst; clear H;
-    eexists; eexists; (split; [reflexivity|]);
-    cbn [app utf8_head List.length]; unfold is_cont;
-    repeat break_if; try lia; f_equal; f_equal; lia.
+  destruct (cp <? 128) eqn:E1.
+  { injection H as <-. exists cp, []. split; [reflexivity|].
+    change ([cp] ++ rest) with (cp :: rest). unfold utf8_head. rewrite E1. reflexivity. }
+  destruct (cp <? 2048) eqn:E2.
+  { remember (192 + cp / 64) as b1 eqn:Hb1. remember (128 + cp mod 64) as b2 eqn:Hb2.
+    injection H as <-. exists b1, [b2]. split; [reflexivity|].
+    change ([b1; b2] ++ rest) with (b1 :: b2 :: rest). unfold utf8_head, is_cont.
+    repeat break_if; try lia. f_equal; f_equal; try reflexivity; lia. }
+  destruct ((55296 <=? cp) && (cp <? 57344)) eqn:E3.
+  { cbn [andb] in H. discriminate. }
+  destruct (cp <? 65536) eqn:E4.
+  { remember (224 + cp / 4096) as b1 eqn:Hb1. remember (128 + (cp / 64) mod 64) as b2 eqn:Hb2.
+    remember (128 + cp mod 64) as b3 eqn:Hb3.
+    injection H as <-. exists b1, [b2; b3]. split; [reflexivity|].
+    change ([b1; b2; b3] ++ rest) with (b1 :: b2 :: b3 :: rest). unfold utf8_head, is_cont.
+    repeat break_if; try lia. f_equal; f_equal; try reflexivity; lia. }
+  destruct (cp <? 1114112) eqn:E5; [|discriminate].
+  remember (240 + cp / 262144) as b1 eqn:Hb1. remember (128 + (cp / 4096) mod 64) as b2 eqn:Hb2.
+  remember (128 + (cp / 64) mod 64) as b3 eqn:Hb3. remember (128 + cp mod 64) as b4 eqn:Hb4.
+  injection H as <-. exists b1, [b2; b3; b4]. split; [reflexivity|].
+  change ([b1; b2; b3; b4] ++ rest) with (b1 :: b2 :: b3 :: b4 :: rest). unfold utf8_head, is_cont.
+  repeat break_if; try lia. f_equal; f_equal; try reflexivity; lia.
 Qed.
 
 Lemma decode_skip_app : forall se r rest,
@@ -214,13 +249,22 @@ Proof.
     fold (utf8_decode false b'). rewrite (IH b' eq_refl). reflexivity.
 Qed.
 
+Lemma forallb_cons : forall (f : N -> bool) x l, forallb f (x :: l) = f x && forallb f l.
+Proof. reflexivity. Qed.
+
 (* the encoder only produces bytes *)
+Lemma enc_cp_wf_match : forall se cp,
+  match enc_cp se cp with Some e => wf_bytes e = true | None => True end.
+Proof.
+  intros se cp. unfold enc_cp, wf_bytes.
+  repeat break_if; try exact I;
+    rewrite ?forallb_cons; unfold wf_byte; rewrite ?andb_true_iff;
+    repeat split; try reflexivity; apply N.ltb_lt; lia.
+Qed.
+
 Lemma enc_cp_wf : forall se cp e, enc_cp se cp = Some e -> wf_bytes e = true.
 Proof.
-  intros se cp e H. unfold enc_cp in H.
-  repeat break_if; try discriminate; inversion H; subst; clear H;
-    cbn [wf_bytes forallb wf_byte]; unfold wf_byte;
-    repeat (apply andb_true_intro; split); try reflexivity; lia.
+  intros se cp e H. pose proof (enc_cp_wf_match se cp) as M. rewrite H in M. exact M.
 Qed.
 
 Lemma wf_bytes_app : forall a b, wf_bytes (a ++ b) = wf_bytes a && wf_bytes b.
